@@ -20,6 +20,8 @@ func init() {
 
 // ---- guard atoms ----
 
+var reConstOrigin = regexp.MustCompile(`^K\((\d+)\)$`)
+
 var reParam = regexp.MustCompile(`P\(([^()]*)\.([A-Za-z0-9_]+)\)`)
 
 // canonAtoms renders origins position-independently: parameters by index of the given function.
@@ -59,8 +61,8 @@ func (a *atomizer) atom(cond ssa.Value) (string, bool) {
 		// flag tests: strat&K > 0, strat&K != 0, strat != 0
 		if k, ok := rhs.(*ssa.Const); ok && k.Value != nil && k.Value.Kind() == constant.Int && k.Int64() == 0 {
 			if and, ok := lhs.(*ssa.BinOp); ok && and.Op == token.AND {
-				if bit, ok := and.Y.(*ssa.Const); ok && (x.Op == token.GTR || x.Op == token.NEQ) {
-					return sprintf("flag(%s&%d)", a.o(and.X), bit.Int64()), true
+				if m := reConstOrigin.FindStringSubmatch(a.o(and.Y)); m != nil && (x.Op == token.GTR || x.Op == token.NEQ) {
+					return sprintf("flag(%s&%s)", a.o(and.X), m[1]), true
 				}
 			}
 			if x.Op == token.NEQ || x.Op == token.GTR {
@@ -84,6 +86,25 @@ func (a *atomizer) atom(cond ssa.Value) (string, bool) {
 		}
 		return x.Op.String() + "(" + a.o(lhs) + " ; " + a.o(rhs) + ")", true
 	case *ssa.Call:
+		// a module helper that is one expression (`return a&b > 0`): the atom is that expression under the call's bindings
+		if callee := x.Call.StaticCallee(); callee != nil && a.c.InModule(callee) && len(callee.Blocks) == 1 && a.helperDepth < 3 {
+			if rets := returnsOf(callee); len(rets) == 1 && len(retResults(rets[0])) == 1 {
+				if _, isConst := retResults(rets[0])[0].(*ssa.Const); !isConst {
+					bind := map[*ssa.Parameter][]string{}
+					for i, prm := range callee.Params {
+						if i < len(x.Call.Args) {
+							bind[prm] = a.pv.Origins(x.Call.Args[i])
+						}
+					}
+					a.pv.binds = append(a.pv.binds, bind)
+					a.helperDepth++
+					s, pos := a.atom(retResults(rets[0])[0])
+					a.helperDepth--
+					a.pv.binds = a.pv.binds[:len(a.pv.binds)-1]
+					return s, pos
+				}
+			}
+		}
 		name := shortName(calleeFullName(x))
 		var args []string
 		for _, arg := range x.Call.Args {
@@ -389,10 +410,10 @@ func dnfString(d [][]literal) string {
 	return strings.Join(cs, "  ∨  ")
 }
 
-// decisionFunc: the module function with an UpdateStrategy parameter returning bool.
+// decisionFunc: the regeneration decision: func(<Database interface>, UpdateStrategy, string, *CertificateContent) bool.
 func (c *Ctx) decisionFunc() *ssa.Function {
 	for _, fn := range c.Funcs {
-		if fn.Parent() != nil {
+		if fn.Parent() != nil || fn.Signature.Recv() != nil {
 			continue
 		}
 		res := fn.Signature.Results()
@@ -402,10 +423,23 @@ func (c *Ctx) decisionFunc() *ssa.Function {
 		if b, ok := res.At(0).Type().Underlying().(*types.Basic); !ok || b.Kind() != types.Bool {
 			continue
 		}
+		hasStrat, hasIface, hasAlias, hasCfg := false, false, false, false
 		for _, p := range fn.Params {
-			if c.isModNamed("UpdateStrategy")(p.Type()) {
-				return fn
+			switch {
+			case c.isModNamed("UpdateStrategy")(p.Type()):
+				hasStrat = true
+			case isString(p.Type()):
+				hasAlias = true
+			case strings.HasSuffix(typeShort(c, p.Type()), "CertificateContent"):
+				hasCfg = true
+			default:
+				if _, ok := p.Type().Underlying().(*types.Interface); ok {
+					hasIface = true
+				}
 			}
+		}
+		if hasStrat && hasIface && hasAlias && hasCfg {
+			return fn
 		}
 	}
 	return nil
@@ -627,28 +661,44 @@ func ruleProvPlan(c *Ctx, r *Rep) {
 		d, _ := a.pathsDNF(plan.Blocks[0], appendCall.Block(), 64)
 		r.Undecided("shape:update-condition|"+fk, c.Pos(appendCall.Pos()), "the update condition is not a two-way choice between the lookup and the decision: "+dnfString(d))
 	}
-	// the appended change: Alias = entity, EffectiveConfig = *merged
-	var changeAlloc *ssa.Alloc
-	for _, b := range plan.Blocks {
-		for _, ins := range b.Instrs {
-			if al, ok := ins.(*ssa.Alloc); ok && strings.HasSuffix(ownerName(c, al.Type()), "db.Change") {
-				if _, isStruct := al.Type().Underlying().(*types.Pointer).Elem().Underlying().(*types.Struct); isStruct {
-					changeAlloc = al
+	// the appended change: Alias = entity, EffectiveConfig = *merged (wherever the value is assembled)
+	var appended ssa.Value
+	if sl, ok := appendCall.Call.Args[1].(*ssa.Slice); ok {
+		if arr, ok := sl.X.(*ssa.Alloc); ok && arr.Referrers() != nil {
+			for _, u := range *arr.Referrers() {
+				if ia, ok := u.(*ssa.IndexAddr); ok && ia.Referrers() != nil {
+					for _, uu := range *ia.Referrers() {
+						if st, ok := uu.(*ssa.Store); ok && st.Addr == ssa.Value(ia) {
+							appended = st.Val
+						}
+					}
 				}
 			}
 		}
 	}
-	if changeAlloc == nil {
-		r.Undecided("shape:change-literal|"+fk, c.FnPos(plan), "no local db.Change value")
+	chT := c.NamedType("generator/db", "Change")
+	var chS *types.Struct
+	if chT != nil {
+		chS, _ = chT.Underlying().(*types.Struct)
+	}
+	if appended == nil || chS == nil {
+		r.Undecided("shape:change-literal|"+fk, c.Pos(appendCall.Pos()), "cannot identify the single value appended to the change list")
 	} else {
-		st := changeAlloc.Type().Underlying().(*types.Pointer).Elem().Underlying().(*types.Struct)
-		for i := 0; i < st.NumFields(); i++ {
-			f := st.Field(i)
+		fieldO := func(f *types.Var) []string {
+			if u, ok := appended.(*ssa.UnOp); ok && u.Op == token.MUL {
+				if al, ok := u.X.(*ssa.Alloc); ok {
+					return pv.loadFrom(al, []*types.Var{f}, 0)
+				}
+			}
+			return uniq(fieldsOf(pv.Origins(appended), f.Name()))
+		}
+		for i := 0; i < chS.NumFields(); i++ {
+			f := chS.Field(i)
 			switch f.Name() {
 			case "Alias":
-				expectSet(r, "change-alias|"+fk, c.Pos(changeAlloc.Pos()), pv.loadFrom(changeAlloc, []*types.Var{f}, 0), "the entity being processed", entity...)
+				expectSet(r, "change-alias|"+fk, c.Pos(appendCall.Pos()), fieldO(f), "the entity being processed", entity...)
 			case "EffectiveConfig":
-				expectSet(r, "change-config|"+fk, c.Pos(changeAlloc.Pos()), pv.loadFrom(changeAlloc, []*types.Var{f}, 0), "the merged configuration the decision was made on", cfg)
+				expectSet(r, "change-config|"+fk, c.Pos(appendCall.Pos()), fieldO(f), "the merged configuration the decision was made on", cfg)
 			}
 		}
 	}
